@@ -413,6 +413,74 @@ fn check_extra_in(local: &[u8], central: &[u8], variant: u8, large: bool, st: &m
     st.distinct_hash(fnv(&[local, central, &[variant, large as u8]].concat()));
 }
 
+pub const ENDERS: [&str; 5] = ["finish", "drop", "next start_file, finish", "next start_file, drop", "add_directory, finish"];
+
+/// Extra data whose end the caller never announces: the entry (without content) is closed by finish(), by drop, or by the
+/// next entry. The bytes then are the shared kind - the same in the local header and the central record - and are
+/// validated like an explicit end: accepted verbatim, or refused (by drop: no archive that carries them).
+fn check_extra_implicit(local: &[u8], large: bool, ender: usize, st: &mut Stats, order: u64) {
+    st.evals += 1;
+    let mut calls = vec![Call::StartFile { name: "before".into(), opts: FOpts::m(0) }, Call::Write(b"b".to_vec()), Call::StartExtra { name: "x".into(), opts: FOpts { large, ..FOpts::m(8) } }, Call::Write(local.to_vec())];
+    match ender {
+        0 => calls.push(Call::Finish),
+        1 => calls.push(Call::Drop),
+        2 => calls.extend([Call::StartFile { name: "after".into(), opts: FOpts::m(0) }, Call::Write(b"a".to_vec()), Call::Finish]),
+        3 => calls.extend([Call::StartFile { name: "after".into(), opts: FOpts::m(0) }, Call::Write(b"a".to_vec()), Call::Drop]),
+        _ => calls.extend([Call::AddDir { name: "after".into(), opts: FOpts::m(0) }, Call::Finish]),
+    }
+    let case = || json!({"kind": "extra-implicit-end", "local": hex(local), "large": large, "ender": ender});
+    let what = format!("extra data never explicitly ended (closed by: {}), large {large}", ENDERS[ender]);
+    let (res, bytes) = exec(&calls, &[]);
+    if let Some((c, r)) = calls.iter().zip(&res).find(|(_, r)| r.is_panic()) {
+        st.class("PANIC");
+        st.viol(format!("extra/panic/{}/{}", c.opname(), panic_site(&r.show())), format!("{what}: {} panicked: {}", c.opname(), r.show()), case(), order);
+        return;
+    }
+    let v = verdict(local, if large { 20 } else { 0 });
+    let accepted = res.iter().all(|r| r.is_ok());
+    let parsed = zipparse::parse(&bytes, &Opts::lenient()).ok();
+    let entry = parsed.as_ref().and_then(|p| p.entries.iter().find(|e| e.name == b"x"));
+    match v {
+        Verdict::Reject => {
+            // no call may leave an archive whose entry carries the bytes (a drop cannot report: it must not produce one)
+            let holds = |hay: &[u8]| !local.is_empty() && hay.windows(local.len()).any(|w| w == local);
+            if let Some(e) = entry {
+                if (accepted || matches!(calls.last(), Some(Call::Drop))) && (holds(&e.extra) || holds(&e.l_extra)) {
+                    st.class("BAD-EXTRA-ACCEPTED");
+                    st.viol(format!("extra/invalid-accepted/implicit-end/{}", ENDERS[ender]), format!("{what}: truncated / ZIP64-id / reserved-id extra data {} ended up in the archive (local {}, central {})", show_x(local), show_x(&e.l_extra), show_x(&e.extra)), case(), order);
+                    return;
+                }
+            }
+            st.class("rejected(implicit end)");
+        }
+        Verdict::Either => st.class("either(implicit end)"),
+        Verdict::Accept => {
+            if !accepted {
+                let (c, r) = calls.iter().zip(&res).find(|(_, r)| !r.is_ok()).unwrap();
+                st.class("GOOD-EXTRA-REFUSED");
+                st.viol(format!("extra/valid-refused/implicit-end/{}", c.opname()), format!("{what}: well-formed unreserved extra data {} refused by {}: {}", show_x(local), c.opname(), r.show()), case(), order);
+                return;
+            }
+            if let Err(e) = zipparse::validate(&bytes, &Opts::strict()) {
+                st.viol(format!("extra/invalid-archive/{}", e.clause), format!("{what}: {e}"), case(), order);
+                return;
+            }
+            match entry {
+                None => st.viol("extra/entry-missing", format!("{what}: entry not in the archive"), case(), order),
+                Some(e) => {
+                    let (l, c) = (PEntry::extra_without_zip64(&e.l_extra), PEntry::extra_without_zip64(&e.extra));
+                    if l.as_deref() != Some(local) || c.as_deref() != Some(local) {
+                        st.class("EXTRA-MISMATCH");
+                        st.viol(format!("extra/not-verbatim/implicit-end/{}", ENDERS[ender]), format!("{what}: supplied {}, local header extra is {}, central extra is {}", show_x(local), hex(&e.l_extra), hex(&e.extra)), case(), order);
+                    } else {
+                        st.class("accepted-verbatim(implicit end)");
+                    }
+                }
+            }
+        }
+    }
+}
+
 fn show_x(b: &[u8]) -> String {
     if b.len() <= 24 {
         hex(b)
@@ -422,6 +490,10 @@ fn show_x(b: &[u8]) -> String {
 }
 
 fn replay(case: &Value, st: &mut Stats) {
+    if case["kind"] == "extra-implicit-end" {
+        check_extra_implicit(&crate::util::unhex(case["local"].as_str().unwrap_or("")), case["large"].as_bool().unwrap_or(false), case["ender"].as_u64().unwrap_or(0) as usize, st, 0);
+        return;
+    }
     if case["kind"] == "align" {
         let pre = preludes();
         let p = pre.iter().find(|p| p.0 == case["prelude"].as_str().unwrap_or("empty")).unwrap_or(&pre[0]);
@@ -549,6 +621,18 @@ pub fn run(args: &Args) -> i32 {
         lists.push(record(id, 65511, 0));
         lists.push(record(id, 65512, 0));
     }
+    // payloads that spell record signatures (an end record, the ZIP64 end record and its locator, a central and a local
+    // header), each followed by enough zero bytes to look like the whole record: extra data is opaque to the format
+    for sig in [&b"PK\x05\x06"[..], b"PK\x06\x06", b"PK\x06\x07", b"PK\x01\x02", b"PK\x03\x04"] {
+        for pad in [0usize, 18, 60] {
+            let mut payload = sig.to_vec();
+            payload.extend(std::iter::repeat(0u8).take(pad));
+            let mut r = vec![0xef, 0xbe];
+            r.extend_from_slice(&(payload.len() as u16).to_le_bytes());
+            r.extend_from_slice(&payload);
+            lists.push(r);
+        }
+    }
     ctx.bound("extra_lists", json!(lists.len()));
     let lists_r = &lists;
     let central_alt = record(0xc0de, 3, 0);
@@ -569,6 +653,12 @@ pub fn run(args: &Args) -> i32 {
                 check_extra_in(l, if v == 3 { central_alt_r } else { l }, v, i % 2 == 0, st, (2 << 40) + i, "record list (appending)", "append:3-small-entries");
                 check_extra_in(l, if v == 3 { central_alt_r } else { l }, v, i % 2 == 1, st, (5 << 40) + i, "record list (after an aligned entry)", "after-aligned-entry-that-padded");
                 check_extra_in(l, if v == 3 { central_alt_r } else { l }, v, i % 2 == 0, st, (6 << 40) + i, "record list (after a central-only entry)", "after-central-only-extra-entry");
+            }
+        }
+        // the end of the extra data never announced (lists of <= 16 bytes, every 11th longer one)
+        if l.len() <= 16 || i % 11 == 0 {
+            for ender in 0..ENDERS.len() {
+                check_extra_implicit(l, (i as usize + ender) % 2 == 0, ender, st, (7 << 40) + i);
             }
         }
         if i == 500 {
